@@ -1,7 +1,7 @@
 #!/bin/sh
 # usage: seedbatch.sh C13 C15 ...  — verify, ingest and run the target check for both mutants of each property
 for P in "$@"; do
-  for N in 1 2; do
+  for N in ${NS:-1 2}; do
     [ -d /tmp/mut-$P/mutants/$N ] || { echo "$P-$N missing"; continue; }
     /verif/harness/seedverify.sh $P $N
     /venv/bin/python /verif/harness/seedingest.py $P $N 2>&1 | grep -v WARNING | tail -1
